@@ -205,6 +205,16 @@ pub fn int_values(ty: Ty, len: std::ops::Range<usize>, allow_wide: bool) -> Boxe
             3 => proptest::collection::vec(int_value(ty, IntClass::Small), l.clone()),
             2 => proptest::collection::vec(int_value(ty, IntClass::Full), l.clone()),
             2 => proptest::collection::vec(int_value(ty, IntClass::Extremes), l.clone()),
+            // closely spaced values at a huge base (near MAX, near MAX/2, near MIN)
+            2 => (0u8..3, proptest::collection::vec(0i128..1000, l.clone())).prop_map(move |(which, v)| {
+                let (lo, hi) = ty.int_range();
+                let base = match which {
+                    0 => hi - 1000,
+                    1 => hi / 2,
+                    _ => lo,
+                };
+                v.into_iter().map(|x| clip(base + x, lo, hi)).collect::<Vec<i128>>()
+            }),
         ]
         .boxed()
     } else {
